@@ -123,3 +123,7 @@ mod tests {
         );
     }
 }
+
+#[cfg(kani)]
+#[path = "/verif/kani/filter.rs"]
+mod verif_kani;
